@@ -36,6 +36,7 @@ mod verif_c15_bulk {
         pub fail_at: u8,
         pub err: u8,
         pub changed: u8,
+        pub calls: usize,
     }
     impl Graph for Store {
         type Triple<'x> = [K; 3];
@@ -46,6 +47,7 @@ mod verif_c15_bulk {
     }
     impl Store {
         fn op<TS: Term>(&mut self, s: TS) -> Result<bool, ErrB> {
+            self.calls += 1;
             if self.n == self.fail_at as usize {
                 return Err(ErrB(self.err));
             }
@@ -90,7 +92,7 @@ mod verif_c15_bulk {
 
     fn check(remove: bool) {
         let outs = [any_out(), any_out(), any_out()];
-        let mut st = Store { log: [9; 3], n: 0, fail_at: kani::any(), err: kani::any(), changed: kani::any() };
+        let mut st = Store { log: [9; 3], n: 0, fail_at: kani::any(), err: kani::any(), changed: kani::any(), calls: 0 };
         let (fail_at, err, changed) = (st.fail_at, st.err, st.changed);
         let src = Src { outs, pos: 0 };
         let r = if remove { st.remove_all(src) } else { st.insert_all(src) };
@@ -124,6 +126,7 @@ mod verif_c15_bulk {
             i += 1;
         }
         assert!(st.n == wn);
+        assert!(st.calls == wn + if verdict == 2 { 1 } else { 0 });
         assert!(st.log == want);
         match verdict {
             0 => assert!(matches!(r, Ok(c) if c == count)),
